@@ -119,6 +119,7 @@ fn c14_tuple_read() {
 }
 
 /// read_array::<U16Be>(n) for ANY usize n (this is where `n * SIZE` can wrap).
+// @release
 #[kani::proof]
 #[kani::unwind(10)]
 fn c14_read_array_u16_any_len() {
@@ -189,6 +190,7 @@ fn c14_read_array_u24_any_len() {
 }
 
 /// read_array_stride::<U16Be>(n, stride): ANY n, ANY stride.
+// @release
 #[kani::proof]
 #[kani::unwind(10)]
 fn c14_read_array_stride_any() {
@@ -231,6 +233,7 @@ fn c14_read_array_stride_any() {
 
 /// read_array_dep with a size that depends on the argument
 /// (`VariationRegion`, 6 bytes per axis): ANY n, any axis count.
+// @release
 #[kani::proof]
 #[kani::unwind(10)]
 fn c14_read_array_dep_any() {
@@ -261,6 +264,7 @@ fn c14_read_array_dep_any() {
 }
 
 /// read_array_upto_hack truncates the count to what fits, never beyond.
+// @release
 #[kani::proof]
 #[kani::unwind(10)]
 fn c14_read_array_upto_hack() {
@@ -288,6 +292,7 @@ fn c14_read_array_upto_hack() {
 
 /// read_slice / read_scope with ANY length; ReadScope::offset_length with ANY
 /// offset and length; ReadScope::offset with ANY offset.
+// @release
 #[kani::proof]
 #[kani::unwind(10)]
 fn c14_slices_and_scopes() {
@@ -556,6 +561,7 @@ fn c14_failed_read_has_no_effect() {
 /// reference cursor says it is (advanced by exactly the size on success, unchanged on
 /// failure) and every value returned is the big-endian value at the reference cursor.
 // @bound every sequence of 3 operations out of {read_u8, read_u16be, read_u32be, read::<U24Be>, read_slice(n), read_array::<U16Be>(n), read_u64be} with n any usize, over any 12-byte buffer truncated anywhere
+// @release
 #[kani::proof]
 #[kani::unwind(10)]
 fn c14_three_step_sequences() {
